@@ -103,6 +103,16 @@ def install_iter_recorder():
     Builder._verif_wrapped = True
 
 
+def new_builder(opt):
+    import AEIC.trajectories.builders as tb
+    from AEIC.trajectories.builders.legacy import LegacyOptions
+
+    if opt == 'weather':
+        # every step of a flight with weather interpolates the wind field: coarser steps keep triples affordable
+        return tb.LegacyBuilder(options=tb.Options(**OPTS[opt]), legacy_options=LegacyOptions(frac_step_clm=0.05, frac_step_crz=0.05, frac_step_des=0.05))
+    return tb.LegacyBuilder(options=tb.Options(**OPTS[opt]))
+
+
 def fly(builder, pm, kind, opt):
     import AEIC.trajectories.builders as tb
 
@@ -135,12 +145,12 @@ def run_seq(job):
         pm = _pm
         install_iter_recorder()
         devs, traces = [], []
-        used = tb.LegacyBuilder(options=tb.Options(**OPTS[opt]))
+        used = new_builder(opt)
         fresh_cache = {}
         for i, fl in enumerate(seq['flights']):
             kind, want = fl['k'], fl['out']
             if kind not in fresh_cache:
-                fb = tb.LegacyBuilder(options=tb.Options(**OPTS[opt]))
+                fb = new_builder(opt)
                 fresh_cache[kind] = fly(fb, pm, kind, opt)[0]
             (tag, dig, ecls, emsg), iters, leftover, ctx_left = fly(used, pm, kind, opt)
             ftag, fdig, fcls, fmsg = fresh_cache[kind]
@@ -220,7 +230,7 @@ def run(ctx: Ctx):
     ctx.rule = (
         'sequences = every sequence of N flights (N = 2 quick / 3 thorough; mass-iterating option sets one shorter) over 8 mission kinds '
         '(2 valid, unknown origin/destination, destination above cruise level, overweight start, missing weather file, outside weather domain) '
-        'for 4 option sets, TLC-enumerated; non-trivial = contains a failing flight followed by another flight'
+        'for 4 option sets, TLC-enumerated; with weather additionally every triple flown / any / flown; non-trivial = contains a failing flight followed by another flight'
     )
     ctx.assumptions += [
         'missions use the sample B738 table and the repository test airports plus synthetic airports written by the harness',
@@ -243,8 +253,15 @@ def run(ctx: Ctx):
             ctx.rng.shuffle(wsel)
             wsel = wsel[:12]
         one = tlc.check(ctx, 'builder/BuilderGen', 'builder/Gen_Builder.cfg', sub={'MaxFlights = 3': 'MaxFlights = 1'}, workers=8)['emitted']
+        # weather: a flown flight, then any flight (failing or not), then a flown flight again on the same builder -
+        # state kept by the weather reader across flights shows only in the third
+        three = seqs if n == 3 else tlc.check(ctx, 'builder/BuilderGen', 'builder/Gen_Builder.cfg', workers=8)['emitted']
+        wtri = [s for s in three if s['opt'] == 'weather' and len(s['flights']) == 3 and s['flights'][0]['out'] == 'traj' and s['flights'][2]['out'] == 'traj']
+        if ctx.quick:
+            wtri = [s for s in wtri if s['flights'][0]['k'] == s['flights'][2]['k']]
         seqs = (
-            [s for s in seqs if s['opt'] == 'plain']
+            wtri
+            + [s for s in seqs if s['opt'] == 'plain']
             + [s for s in short if s['opt'] in ('iter', 'iter_tight')]
             + [s for s in one if s['opt'] == 'weather']
             + wsel
